@@ -46,6 +46,9 @@ def gen_params(r: random.Random, *, max_einsums=3, small=True, want_multi=False)
         "glb_keep": r.choice(["~MainMemory", "~MainMemory", "All"]),
         "persistent_weights": False,
     }
+    # some specs take their energies from the top-level `variables` section (expressions in the
+    # architecture are evaluated against it), so that "the same arch text" can mean different costs
+    p["use_vars"] = r.random() < 0.35
     return p
 
 
@@ -76,7 +79,13 @@ def workload_yaml(p) -> str:
 
 
 def arch_yaml(p) -> str:
-    L = ["arch:", "  nodes:",
+    p = dict(p)
+    head = []
+    if p.get("use_vars"):
+        head = ["variables:", f"  MAIN_E: {p['main_energy']}", f"  GLB_E: {p['glb_energy']}"]
+        p["main_energy"] = "MAIN_E"
+        p["glb_energy"] = "GLB_E * 1"
+    L = head + ["arch:", "  nodes:",
          "  - !Memory", "    name: MainMemory", "    size: inf", "    leak_power: 0", "    area: 0",
          "    tensors: {keep: ~Intermediates, may_keep: All}", "    actions:",
          f"    - {{name: read, energy: {p['main_energy']}, throughput: {p['main_throughput']}}}",
